@@ -50,7 +50,7 @@ package decoders
 // ---------------------------------------------------------------- http/json, array form
 
 //@ func (d *jsonlineDecoder) readArray
-//@ props C07 C09 C13
+//@ props C07 C09 C13 C08
 //@ env pooltype(d.pool, *ammo.Ammo)
 //@ loop 0 invariant len(result) == len(data) && d.decodedConfigHeaders == old(d.decodedConfigHeaders)
 //@ loop 0 step [every-entry-gets-its-own-copy-of-the-configured-headers] calls(d.decodedConfigHeaders.Clone) - iter(calls(d.decodedConfigHeaders.Clone)) == 1
@@ -98,7 +98,7 @@ package decoders
 //@ modifies d.ammoNum, d.passNum, d.header, elems(d.header)
 
 //@ func (d *uripostDecoder) readBlock
-//@ props C13 C07 C09
+//@ props C13 C07 C09 C08
 //@ env pooltype(d.pool, *ammo.Ammo)
 //@ ensures [error-yields-no-usable-ammo] imp(result1 != nil && calls(a.Setup) == 0, result0 == nil)
 //@ ensures [unterminated-last-line-is-decoded] imp(result_of(reader.ReadString, 1) == io.EOF && len(strings.TrimSpace(result_of(reader.ReadString, 0))) > 0, calls(util.DecodeHeader) + calls(uripost.DecodeURI) == 1)
@@ -141,7 +141,7 @@ package decoders
 // ---------------------------------------------------------------- uri
 
 //@ func (d *uriDecoder) readLine
-//@ props C13 C07 C09
+//@ props C13 C07 C09 C08
 //@ env pooltype(d.pool, *ammo.Ammo)
 //@ env [config-header-keys-are-canonical] forall_t(q, string, imp(has(d.decodedConfigHeaders, q), canon(q) == q))
 //@ env commonHeader != nil
